@@ -72,6 +72,11 @@ type Mint struct {
 	// states (UNPAID -> PAID -> PENDING -> ISSUED) done by GetMintQuoteState,
 	// MintTokens and the invoice subscription.
 	mintQuoteMu *sync.Mutex
+
+	// proofsMu serializes checking that proofs are neither spent nor pending
+	// and marking them as spent or pending. These are separate db calls on
+	// two tables so without it concurrent requests could use the same proof.
+	proofsMu *sync.Mutex
 }
 
 func LoadMint(config Config) (*Mint, error) {
@@ -127,6 +132,7 @@ func LoadMint(config Config) (*Mint, error) {
 		cancel:     cancel,
 
 		mintQuoteMu: &sync.Mutex{},
+		proofsMu:    &sync.Mutex{},
 	}
 
 	// if no keysets stored, just create a new one
@@ -536,6 +542,10 @@ func (m *Mint) Swap(proofs cashu.Proofs, blindedMessages cashu.BlindedMessages) 
 		return nil, cashu.InsufficientProofsAmount
 	}
 
+	// hold the lock until the proofs are invalidated
+	m.proofsMu.Lock()
+	defer m.proofsMu.Unlock()
+
 	if err := m.verifyProofs(proofs, Ys); err != nil {
 		return nil, err
 	}
@@ -714,12 +724,15 @@ func (m *Mint) GetMeltQuoteState(ctx context.Context, quoteId string) (storage.M
 			m.logInfof("payment %v succeded. setting melt quote '%v' to paid and invalidating proofs",
 				meltQuote.PaymentHash, meltQuote.Id)
 
+			m.proofsMu.Lock()
 			proofs, err := m.removePendingProofsForQuote(meltQuote.Id)
 			if err != nil {
+				m.proofsMu.Unlock()
 				errmsg := fmt.Sprintf("error removing pending proofs for quote: %v", err)
 				return storage.MeltQuote{}, cashu.BuildCashuError(errmsg, cashu.DBErrCode)
 			}
 			err = m.db.SaveProofs(proofs)
+			m.proofsMu.Unlock()
 			if err != nil {
 				errmsg := fmt.Sprintf("error invalidating proofs. Could not save proofs to db: %v", err)
 				return storage.MeltQuote{}, cashu.BuildCashuError(errmsg, cashu.DBErrCode)
@@ -802,6 +815,18 @@ func (m *Mint) MeltTokens(ctx context.Context, meltTokensRequest nut05.PostMeltB
 		Ys[i] = Yhex
 	}
 
+	// hold the lock from checking the quote and proofs until the proofs
+	// and the quote are set as pending. It is released before the payment.
+	m.proofsMu.Lock()
+	locked := true
+	unlock := func() {
+		if locked {
+			locked = false
+			m.proofsMu.Unlock()
+		}
+	}
+	defer unlock()
+
 	meltQuote, err := m.db.GetMeltQuote(meltTokensRequest.Quote)
 	if err != nil {
 		return storage.MeltQuote{}, cashu.QuoteNotExistErr
@@ -841,6 +866,7 @@ func (m *Mint) MeltTokens(ctx context.Context, meltTokensRequest nut05.PostMeltB
 		errmsg := fmt.Sprintf("error updating melt quote state: %v", err)
 		return storage.MeltQuote{}, cashu.BuildCashuError(errmsg, cashu.DBErrCode)
 	}
+	unlock()
 
 	// before asking backend to send payment, check if quotes can be settled
 	// internally (i.e mint and melt quotes exist with the same invoice)
@@ -851,12 +877,15 @@ func (m *Mint) MeltTokens(ctx context.Context, meltTokensRequest nut05.PostMeltB
 		if err != nil {
 			return storage.MeltQuote{}, err
 		}
+		m.proofsMu.Lock()
 		err := m.db.RemovePendingProofs(Ys)
 		if err != nil {
+			m.proofsMu.Unlock()
 			errmsg := fmt.Sprintf("error removing pending proofs: %v", err)
 			return storage.MeltQuote{}, cashu.BuildCashuError(errmsg, cashu.DBErrCode)
 		}
 		err = m.db.SaveProofs(proofs)
+		m.proofsMu.Unlock()
 		if err != nil {
 			errmsg := fmt.Sprintf("error invalidating proofs. Could not save proofs to db: %v", err)
 			return storage.MeltQuote{}, cashu.BuildCashuError(errmsg, cashu.DBErrCode)
@@ -1010,6 +1039,10 @@ func (m *Mint) settleQuotesInternally(
 // settleProofs will remove the proofs from the pending table
 // and mark them as spent by adding them to the used proofs table
 func (m *Mint) settleProofs(Ys []string, proofs cashu.Proofs) error {
+	// the proofs must not be seen as neither pending nor spent in between
+	m.proofsMu.Lock()
+	defer m.proofsMu.Unlock()
+
 	err := m.db.RemovePendingProofs(Ys)
 	if err != nil {
 		errmsg := fmt.Sprintf("error removing pending proofs: %v", err)
